@@ -17,8 +17,17 @@ import (
 
 // VerifBootstrap runs the service's own initialisation of the P2P store with an item received from a peer
 // (initStoreAndStartSyncer, what setFirstAndStart calls) on a service that consists of a real go-header store and
-// the genesis only; the syncer is marked as started so that nothing else is touched. It reports whether the store
-// holds a head afterwards, and the error of the init path.
+// the genesis only. It reports whether the store holds a head afterwards, and the error of the init path.
+//
+// What is REAL here: initStoreAndStartSyncer itself (the IsZero test, the genesis-proposer check, store.Init of the
+// real go-header store on the given datastore) and the store's Height().
+// What is NOT run and must be reproduced by the caller or is left out:
+//   - the exchange session's Validate() on the item: go-header calls it BEFORE the item gets here
+//     (p2p/session.go); initStoreAndStartSyncer relies on that, so the harness calls the library entry
+//     (New, UnmarshalBinary, Validate through the header.Header[H] interface) first and only then this hook;
+//   - store.Start (the flush loop) - Init writes the head synchronously, nothing else of the store is used;
+//   - StartSyncer: the syncer is marked as started so that no syncer is needed; what the syncer does with later
+//     headers (Validate, Verify against the head) is exercised separately by the harness's library-entry ops.
 func VerifBootstrap[H header.Header[H]](ctx context.Context, kv ds.Batching, gen genesis.Genesis, initial H) (bool, error) {
 	st, err := goheaderstore.NewStore[H](kv, goheaderstore.WithStorePrefix("verif"))
 	if err != nil {
